@@ -1,7 +1,118 @@
-(* PropC01.v — C01: clean restart reproduces the exact logical state. Proved layers: (L) the live queues are exactly the replay of the entries the calls logged; (S) replaying a suffix of a legal log gives, per queue, the same next position and exactly the records appended by entries of the suffix - deleted queues never reappear; (E) if every retained record was appended in the suffix and every empty queue is mentioned there, suffix and full log replay to the same state; (M) the model's replay refines the spec-level replay. The glue to files (FileStream) and the GC coverage invariant are stated_not_proved.
+(* PropC01.v — C01: clean restart reproduces the exact logical state. Proved layers: (L) the live queues are exactly the replay of the entries the calls logged; (S) replaying a suffix of a legal log gives, per queue, the same next position and exactly the records appended by entries of the suffix - deleted queues never reappear; (E) if every retained record was appended in the suffix and every empty queue is mentioned there, suffix and full log replay to the same state; (M) the model's replay refines the spec-level replay. END TO END: C01_restart_identity / C01_history_spec below (RestartFinal.v): for every history of well-formed calls with clean restarts anywhere, from a fresh directory, every restart succeeds and is the identity on the abstract state; the whole run refines the specification with restarts as no-ops. hist_ok = arguments well-formed (UTF-8 names < 2^16 bytes, positions and batch ends <= 2^64, payloads < 2^32 bytes) and the stream stays below 2^64 files; no I/O hypothesis is needed (step_no_io).
    Statements only; each theorem is closed by `exact <lemma>`; proofs live in the imported files. *)
 From Coq Require Import Lia NArith List.
-From MRL Require Import Bytes Params Names Frame Record Mem Spec Rolling Log Hist SpecRefine RecordProofs GhostLog ReplaySpec.
+From MRL Require Import Bytes Params Names Frame Record Mem Spec Rolling Log Hist SpecRefine RecordProofs GhostLog ReplaySpec RestartInv RestartStep OpenReplay RestartFinal.
+
+(* THE PROPERTY: after any history with restarts anywhere, dropping the log and opening the directory again succeeds and yields the same queues, the same retained records (range, byte for byte, all bounds), the same last position and last record for every queue *)
+Theorem C01_restart_identity :
+    forall P : params,
+    7 < BS P ->
+    BS P <= 65542 ->
+    1 <= NB P ->
+    (forall (t : byte) (p : bytes), crcf P t p < 2 ^ 32) ->
+    L_GC P = false ->
+    L_IO P = false ->
+    forall (pol0 : policy) (st0 : state) (h : list hop) (st : state) (outs : list outcome),
+    open P [] None pol0 [] = OpenOk st0 ->
+    hrun P st0 h = Some (st, outs) ->
+    hist_ok P st0 h ->
+    restart_bound P st ->
+    forall (pol : policy) (hint : list bytes),
+    exists st' : state,
+    restart P st pol hint = OpenOk st' /\
+    (forall q : bytes, s_get (abs_qs (s_qs st')) q = s_get (abs_qs (s_qs st)) q) /\
+    (forall (q : bytes) (lo hi : bound), log_range st' q lo hi = log_range st q lo hi) /\
+    (forall q : bytes, log_last_position st' q = log_last_position st q) /\
+    (forall q : bytes, log_last_record st' q = log_last_record st q).
+Proof. exact C01_restart_identity. Qed.
+Print Assumptions C01_restart_identity.
+
+(* the whole history (calls and restarts) refines the sequential specification run over the calls alone: restarts are no-ops; outcomes agree *)
+Theorem C01_history_spec :
+    forall P : params,
+    7 < BS P ->
+    BS P <= 65542 ->
+    1 <= NB P ->
+    (forall (t : byte) (p : bytes), crcf P t p < 2 ^ 32) ->
+    L_GC P = false ->
+    L_IO P = false ->
+    forall (pol0 : policy) (st0 : state) (h : list hop),
+    open P [] None pol0 [] = OpenOk st0 ->
+    hist_ok P st0 h ->
+    exists (st : state) (outs : list outcome) (m : smap) (souts : list sout),
+    hrun P st0 h = Some (st, outs) /\
+    s_run [] (map sop_of (hcalls h)) = (m, souts) /\
+    (forall q : bytes, s_get m q = s_get (abs_qs (s_qs st)) q) /\ map out_logical outs = map Some souts.
+Proof. exact C01_history_spec. Qed.
+Print Assumptions C01_history_spec.
+
+(* one restart from any state satisfying the global invariant: open succeeds, re-establishes the invariant, abstract state unchanged *)
+Theorem C01_inv_reopen :
+    forall P : params,
+    7 < BS P ->
+    BS P <= 65542 ->
+    1 <= NB P ->
+    (forall (t : byte) (p : bytes), crcf P t p < 2 ^ 32) ->
+    L_GC P = false ->
+    L_IO P = false ->
+    forall (st : state) (G : ghost),
+    Inv P st G ->
+    reopen_bound P st G ->
+    forall (pol : policy) (hint : list bytes),
+    exists (st' : state) (G' : ghost),
+    open P (c_fs (drop_log st)) None pol hint = OpenOk st' /\
+    Inv P st' G' /\
+    (forall q : bytes, s_get (abs_qs (s_qs st')) q = s_get (abs_qs (s_qs st)) q) /\
+    gh_base G' = gh_base G /\
+    s_pol st' = pol /\
+    (exists extra : list entry, gh_ALL G' = gh_ALL G ++ extra /\ pos_extra (abs_qs (s_qs st)) extra).
+Proof. exact inv_reopen. Qed.
+Print Assumptions C01_inv_reopen.
+
+(* under the invariant no call fails with an I/O error (the model's file system only fails on name clashes, excluded by the invariant) *)
+Theorem C01_no_io_needed :
+    forall P : params,
+    7 < BS P ->
+    BS P <= 65542 ->
+    1 <= NB P ->
+    (forall (t : byte) (p : bytes), crcf P t p < 2 ^ 32) ->
+    L_GC P = false ->
+    forall (st : state) (G : ghost) (o : op) (tick : bool),
+    Inv P st G ->
+    op_wf_strict (s_qs st) o ->
+    RestartWrite.stream_bound P G (map snd (step_log P st o)) -> no_io (snd (step P st o tick)).
+Proof. exact step_no_io. Qed.
+Print Assumptions C01_no_io_needed.
+
+(* the invariant is preserved by every call, garbage collection included *)
+Theorem C01_inv_step :
+    forall P : params,
+    7 < BS P ->
+    BS P <= 65542 ->
+    1 <= NB P ->
+    (forall (t : byte) (p : bytes), crcf P t p < 2 ^ 32) ->
+    L_GC P = false ->
+    forall (st : state) (G : ghost) (o : op) (tick : bool) (st' : state) (out : outcome),
+    Inv P st G ->
+    op_wf_strict (s_qs st) o ->
+    RestartWrite.stream_bound P G (map snd (step_log P st o)) ->
+    step P st o tick = (st', out) ->
+    (forall e : ioerr, out <> OutIo e) ->
+    exists G' : ghost,
+    Inv P st' G' /\
+    gh_base G' = gh_base G /\ gh_dropped G' = gh_dropped G /\ gh_log G' = gh_log G ++ step_log P st o.
+Proof. exact inv_step. Qed.
+Print Assumptions C01_inv_step.
+
+(* and holds for a fresh directory *)
+Theorem C01_inv_fresh :
+    forall P : params,
+    7 < BS P ->
+    BS P <= 65542 ->
+    1 <= NB P ->
+    forall (pol : policy) (st0 : state), open P [] None pol [] = OpenOk st0 -> Inv P st0 gh_fresh.
+Proof. exact inv_fresh. Qed.
+Print Assumptions C01_inv_fresh.
 
 (* the ghost log does not change behaviour *)
 Theorem C01_instrumentation_erases :
